@@ -5,8 +5,8 @@ from props import xmlcommon as X
 
 PROP = "C17"
 ENGINE = "xmlser"
-LEAN_TARGETS = ["H5V.Props.C17", "H5V.Props.C17RT"]
-AUDIT_IMPORTS = ["H5V.Props.C17RT"]
+LEAN_TARGETS = ["H5V.Props.C17", "H5V.Props.C17RT", "H5V.Props.C17Shape"]
+AUDIT_IMPORTS = ["H5V.Props.C17Shape"]
 THEOREMS = ["H5V.Props.C17." + t for t in [
     "C17_unescape_escape", "C17_escape_delimiters", "C17_text_roundtrip_partial", "C17_attr_roundtrip_partial",
     "C17_witness_cr", "C17_roundtrip_partial", "C17_witness_attr_prefix", "C17_witness_default_undeclared",
@@ -15,7 +15,13 @@ THEOREMS = ["H5V.Props.C17." + t for t in [
     # with the XML tokenizer model in the loop (Props/C17RT.lean): no abstract lexer left; hypothesis nodesLex + witnesses
     "C17_tok_events", "C17_roundtrip_tok", "C17_roundtrip_tok_one_piece", "checkParse_sound", "checkRT_sound",
     "C17_witness_lexical", "C17_witness_attr_leading_colon", "C17_witness_prefix_eq", "C17_witness_pi_blank",
-    "C17_side_finding_stale_attr_value", "C17_chars_split_main", "render_starts_lt"]]
+    "C17_side_finding_stale_attr_value", "C17_chars_split_main", "render_starts_lt",
+    # every document the parser models build is in the class of the round-trip theorems (Props/C17Shape.lean), the class
+    # widened to treesOKW; tokens outside the lexical class are exactly the Corner tokens
+    "C17_okEvs_fixedW", "C17_roundtrip_fixedW", "C17_roundtrip_tokW", "C17_witness_class_gap", "C17_parsed_shape",
+    "tokShape_of_source", "C17_roundtrip_noroot", "C17_roundtrip_parsed", "C17_roundtrip_parsed_source", "C17_tok_always",
+    "C17_tok_lex_or_corner", "C17_parsed_lex", "C17_roundtrip_tok_noroot", "C17_roundtrip_source", "C17_roundtrip_source_eval",
+    "C17_known_corners", "C17_witness_attr_prefix_eq"]]
 TRUSTED = [
     "Lean 4 kernel; axioms ⊆ {propext, Classical.choice, Quot.sound} (audited per run)",
     "hand-written model lean/H5V/Model/XmlSer.lean of xml5ever/src/serialize/mod.rs + rcdom's Serialize impl, tied "
